@@ -292,7 +292,18 @@ func runJobs(r *runner, keys []scenKey) {
 		wg.Add(1)
 		go func() {
 			defer wg.Done()
-			r.runScenario(func() *Scenario { return buildScenario(k, r.f) })
+			r.runScenario(func() (sc *Scenario) {
+				// the chain generator runs juno's own Finalise / RevertHead on its source node; when
+				// that fails without any fault the history cannot even be manufactured
+				defer func() {
+					if p := recover(); p != nil {
+						sc = nil
+						r.res.Violate(lib.Violation{Sig: "fault-free-source-node-fails", What: fmt.Sprintf("building history %s/%d: %v", k.Family, k.Seed, p),
+							Replay: map[string]any{"scenario": k.Family, "seed": k.Seed, "src_new_state": k.SrcNew, "dst_new_state": k.DstNew, "backend": k.Backend}})
+					}
+				}()
+				return buildScenario(k, r.f)
+			})
 		}()
 	}
 	wg.Wait()
@@ -305,7 +316,15 @@ func main() {
 		"a crash after the k-th commit, or a failure of the k-th commit, for every k; non-trivial = every case (each history stores blocks with events)")
 	workers := min(runtime.NumCPU(), 12)
 	r := &runner{res: res, f: f, sem: make(chan struct{}, workers)}
-	r.fixes = probeFixes()
+	var probeProblem string
+	r.fixes, probeProblem = probeFixes()
+	if probeProblem != "" {
+		// the two-block history the probe runs (store, store with the last commit failing, one
+		// revert of the filter) did not behave like any variant of the code
+		res.Violate(lib.Violation{Sig: "fault-free-store-fails", What: "probe history (store block 0; store block 1 on a fresh instance " +
+			"of the same store; store block 1 with its last commit failing): " + probeProblem,
+			Replay: map[string]any{"scenario": "probe", "seed": 1}})
+	}
 	res.Note("repairs detected in the code under test (reset-on-error, drop-snapshot-on-revert, drop-previous-window-on-crossing): %s", r.fixes)
 	res.SetExtra("repairs_detected", r.fixes)
 	if f.Driver != "" {
